@@ -74,6 +74,9 @@ type Proc struct {
 	ExitCode int
 	Signaled string // name of the signal that terminated it, "" otherwise
 	Exited   bool
+	// FrozenUntil: the process is not scheduled before this instant of the fake clock (SIGSTOP-like
+	// freeze / paused VM injected by an engine); its goroutines stop at their next visible operation.
+	FrozenUntil time.Time
 	gs       map[*G]struct{}
 	OpCount  int // number of simulated syscalls issued so far (fault addressing)
 
@@ -411,6 +414,16 @@ func Go(fn func()) {
 // until the scheduler releases it.
 func (g *G) park(op Op) {
 	w := g.W
+	if fu := g.Proc.FrozenUntil; !fu.IsZero() {
+		if d := time.Until(fu); d > 0 && !g.Proc.Dead {
+			t := time.NewTimer(d)
+			select {
+			case <-t.C:
+			case <-g.Proc.DeadCh:
+				t.Stop()
+			}
+		}
+	}
 	Big.Lock()
 	g.op = op
 	w.parked = append(w.parked, g)
